@@ -241,6 +241,17 @@ def ab3(model):
                 twin = k
                 break
         if twin is None:
+            # one slice of the position list may cover the copied piece and, directly behind it, the first
+            # positions of the phrase: [lo : hi + k] with hi = match start and hi + k <= match end
+            m = match_of(sst)
+            for k, (pn, plo, phi, pst) in psl.items():
+                if k not in used and m is not None and pst.facts.prove_eq(plo, lo) and pst.facts.prove_eq(hi, m.s) \
+                        and pst.facts.prove_ge0(phi - hi) and pst.facts.prove_ge0(m.e - phi):
+                    twin = k
+                    r.ok(pn, 'positions [%r:%r] = twin of the copied piece + positions inside the replaced '
+                         'phrase' % (plo, phi), nontrivial=True)
+                    break
+        if twin is None:
             r.fail(n, 'text slice %s has no slice of the position list with the same bounds: '
                    'characters outside a phrase lose their position' % unparse(n))
         else:
